@@ -35,11 +35,12 @@ type Raw struct {
 	seen   int // frames of w.All already decoded
 	ipID   uint16
 	MonErr error
+	Local  []tcpip.Address // addresses of the stack (frame monitor: legal source addresses)
 }
 
 func NewRaw(v6 bool, mtu int) *Raw {
 	w := NewWorld()
-	r := &Raw{w: w, v6: v6, mon: NewMonitor()}
+	r := &Raw{w: w, v6: v6, mon: NewMonitor(), Local: []tcpip.Address{addrA4, addrA6}}
 	r.n = w.AddNode(NodeCfg{Name: "S", V4: []tcpip.Address{addrA4}, V6: []tcpip.Address{addrA6}, MTU: uint32(mtu)})
 	if v6 {
 		r.sAddr, r.pAddr = []byte(addrA6), []byte(addrB6)
@@ -79,7 +80,7 @@ func (r *Raw) Collect() []*Decoded {
 	var out []*Decoded
 	for _, f := range r.w.InFlight() {
 		r.w.Take(f)
-		d, err := r.mon.Check(f, []tcpip.Address{addrA4, addrA6})
+		d, err := r.mon.Check(f, r.Local)
 		if err != nil && r.MonErr == nil {
 			r.MonErr = fmt.Errorf("frame #%d: %v (bytes %x)", f.Seq, err, f.Data)
 		}
@@ -266,6 +267,10 @@ type rawRun struct {
 	haveEEdge              bool
 	emitSeen               int // frames of w.All already passed to onEmit
 	frDone                 bool
+	probed                 bool
+	sendingProbe           bool
+	shrunk                 bool
+	pSentMax               uint32 // highest sequence number (exclusive) a conforming send has covered
 	inTimerStep            bool
 	silentEmits            int
 	rtxTimes               []time.Duration
@@ -576,6 +581,9 @@ func (x *rawRun) onEmit(d *Decoded) {
 			x.eEdge = edge
 		}
 		x.haveEEdge = true
+		if x.probed && x.has('w') && x.pSentMax != 0 && ref.SeqLT(x.pSentMax, t.Ack) {
+			x.fail("C04", "beyond-window-accepted", "beyond-window-accepted", "the stack acknowledges +%d although the only segment carrying those bytes lay wholly beyond the window it had advertised (conforming data ends at +%d)", t.Ack-x.cfg.PeerISS-1, x.pSentMax-x.cfg.PeerISS-1)
+		}
 	}
 	if n == 0 && t.Flags&ref.FIN == 0 {
 		return
@@ -952,6 +960,9 @@ func (x *rawRun) peerSendData(off, n int, fin bool) {
 	if fin {
 		flags |= ref.FIN
 	}
+	if end := x.cfg.PeerISS + 1 + uint32(off+n); !x.sendingProbe && (x.pSentMax == 0 || ref.SeqLT(x.pSentMax, end)) {
+		x.pSentMax = end
+	}
 	x.r.InjectIP(ref.ProtoTCP, ref.BuildTCP(peerPort, x.sPort, x.cfg.PeerISS+1+uint32(off), x.rcvNxt, flags, uint16(x.cfg.PeerWnd), x.segOpts(nil), x.pData[off:off+n], x.r.pAddr, x.r.sAddr))
 }
 
@@ -1012,10 +1023,31 @@ func (x *rawRun) menu() []action {
 		}})
 	case len(x.pSegs) > 0 && x.established && !x.fits(x.pSegs[0]) && x.cfg.Read == "stall" && !x.drain:
 		m = append(m, action{name: "peer is blocked by the advertised window; application starts reading", do: func() { x.drain = true }})
+		if x.dev('o') && !x.probed {
+			sg := x.pSegs[0]
+			m = append(m, action{name: fmt.Sprintf("non-conforming peer sends [%d,+%d) although it lies wholly beyond the advertised window", sg[0], sg[1]), cost: 1, do: func() {
+				x.probed = true
+				x.sendingProbe = true
+				x.peerSendData(sg[0], sg[1], false) // not counted as sent: the peer sends it again once the window allows
+				x.sendingProbe = false
+			}})
+		}
+		if x.dev('b') && !x.shrunk && x.cfg.RcvBuf > 0 {
+			m = append(m, action{name: "application shrinks its receive buffer to a quarter", cost: 1, do: func() {
+				x.shrunk = true
+				x.ep.SetSockOpt(tcpip.ReceiveBufferSizeOption(x.cfg.RcvBuf / 4))
+			}})
+		}
 	case len(x.pSegs) > 0 && x.established && x.fits(x.pSegs[0]):
 		s := x.pSegs[0]
 		last := len(x.pSegs) == 1
 		m = append(m, action{name: fmt.Sprintf("peer sends data [%d,+%d)", s[0], s[1]), do: func() { x.pSegs = x.pSegs[1:]; x.peerSendData(s[0], s[1], false) }})
+		if x.dev('b') && !x.shrunk && x.cfg.RcvBuf > 0 && s[0] > 0 {
+			m = append(m, action{name: "application shrinks its receive buffer to a quarter", cost: 1, do: func() {
+				x.shrunk = true
+				x.ep.SetSockOpt(tcpip.ReceiveBufferSizeOption(x.cfg.RcvBuf / 4))
+			}})
+		}
 		if x.dev('o') {
 			if !last && x.fits(x.pSegs[1]) {
 				nx := x.pSegs[1]
